@@ -141,6 +141,14 @@ Example root_start_examples :
   declared (s2l "o") (10 :: s2l "xmlns:o  = 'u'") = true /\ declared (s2l "o") (s2l "xxmlns:o='u'") = false.
 Proof. vm_compute. repeat split. Qed.
 
+(* which parts are OpenDocument's *)
+Example is_odf_examples :
+  map (fun x => is_odf_part (s2l x))
+    ["<office:document-content xmlns:office='o'>"; "<?xml version='1.0'?><!-- c --><document-styles xmlns='o'/>"; "<o:document-meta>"; "<office:document xmlns:office='o'>";
+     "<math xmlns='m'><mi>document</mi></math>"; "<math:math xmlns:math='m'/>"; "<office:document-contents>"; "<document:x/>"; "<a:b:document>"; "<office:document"; ""]%string
+  = [true; true; true; true; false; false; false; false; false; false; false].
+Proof. vm_compute. reflexivity. Qed.
+
 (* the root's start tag: behind a comment that reads like a declaration, ended by the first '>' outside a value; a root
    without any prefix declaration is left alone, whatever its text says *)
 Definition ex3 := s2l "<?xml version='1.0'?><!-- a xmlns:b --><r xmlns:o='a>b' x=""'>"">t xmlns:q</r>".
